@@ -784,7 +784,18 @@ def rule_mask_vectors(ctx, cfg='prod-all'):
                     ok = bool(blist)
                     for bi in blist:
                         good = False
+                        gates = []
                         for g in ga.block_gates(cfd, bi):
+                            if g.kind == 'deleg' and g.callee:
+                                # a membership helper (`hidden.contains(i)` on a small wrapper type): the test it makes, in the closure's terms
+                                for alt in ga._lift_paths(cfd, g.callee, g.args, g.dom, (), want=(g.truth is not False)) or []:
+                                    for g3 in alt:
+                                        if g3.truth is None:
+                                            g3.truth = g.truth        # the helper hands the test's verdict back as it is
+                                        gates.append(g3)
+                            else:
+                                gates.append(g)
+                        for g in gates:
                             if g.kind == 'call' and (g.what or '').endswith('contains') and len(g.operands) >= 2:
                                 a0 = cf.lift(g.operands[0])
                                 a1 = cf.lift(g.operands[1])
